@@ -927,7 +927,7 @@ def run(chk):
              "oracle_agreements": 0, "model_level_differences": 0,
              "failing": 0, "known_class_hits": {}, "known_ids": [e["id"] for e in known]}
     thorough = chk.tier == "thorough"
-    n = 900 if thorough else 100
+    n = 900 if thorough else 85
     gf_budget = [400 if thorough else 24]
     # corpus of past failures first
     cdir = os.path.join(common.ROOT, "corpus", "C05")
